@@ -91,8 +91,13 @@ def generate(rng, tier):
             ids.append(f"S{i}.G.Z")
         if rng.random() < 0.2:
             ids.append(f"S{i}.G.W")
-        comps.append({"name": f"Syn{i}", "ids": ids,
-                      "parents": [f"Syn{j}" for j in range(i) if rng.random() < 0.35]})
+        parents = [f"Syn{j}" for j in range(i) if rng.random() < 0.35]
+        c = {"name": f"Syn{i}", "ids": ids, "parents": parents}
+        if parents and rng.random() < 0.3:
+            # a user's palette that only re-uses the syntaxes of its parent palettes: no defaults of its own
+            c["ids"] = ids = []
+            c["no_defaults"] = True
+        comps.append(c)
         syn_ids += ids
     real_ids = sorted({sid for name in real_used for sid in REAL[name][1].values()
                        if sid and sid not in colorgen.BUILTIN_IDS})
@@ -118,8 +123,11 @@ def generate(rng, tier):
 
     # synthetic component defaults
     for c in comps:
-        c["defaults"] = colorgen.nest({sid: descr_for(sid) for sid in c["ids"]}, rng)
+        c["defaults"] = None if c.get("no_defaults") else colorgen.nest({sid: descr_for(sid) for sid in c["ids"]}, rng)
         acc = {f"a{k}": sid for k, sid in enumerate(c["ids"])}
+        if c.get("no_defaults"):
+            pids = [sid for x in comps if x["name"] in c["parents"] for sid in x["ids"]]
+            acc = {f"p{k}": sid for k, sid in enumerate(pids[:3])}
         if rng.random() < 0.5:
             acc["other"] = rng.choice(order)          # accessor to somebody else's id
         if rng.random() < 0.2:
@@ -136,7 +144,7 @@ def generate(rng, tier):
         # a component ships a syntactically broken default for an id that the explicit configuration
         # describes: with this configuration the default is never looked at; a configuration without
         # the item rejects the component (a fault, injected through the global-configuration ops)
-        c = rng.choice(comps)
+        c = rng.choice([x for x in comps if not x.get("no_defaults")])
         bad_id = c["name"].upper() + ".BROKEN"
         c["bad"] = {"id": bad_id, "descr": rng.choice(["RED:BLUE", "a:b:c:d", "RED:boldd"])}
         c["defaults"] = dict(flatten(c["defaults"]))
@@ -215,7 +223,7 @@ def simplify(trace):
     for c in trace["components"]:
         if c["parents"]:
             yield dict(trace, components=[dict(x, parents=[]) if x is c else x for x in trace["components"]])
-        fl = flatten(c["defaults"])
+        fl = flatten(c["defaults"] or {})
         if len(fl) > 1:
             for k in sorted(fl):
                 nd = {a: b for a, b in fl.items() if a != k}
